@@ -1746,6 +1746,12 @@ impl<const M0: u64, const M1: u64, const M2: u64, const M3: u64> ModInt256<M0, M
         // we get a non-Montgomery result.
         let mut z0 = Self([ u1[0], u1[1], 0, 0 ]);
         z0.set_cond(&(z0 - Self([0, 0, 1, 0])), sgnw(u1[1]) as u32);
+        // The true u1 cannot be zero (the source value is not zero here);
+        // if its truncation is zero then the true value is +/-2^128, and
+        // u0 must be computed from it, not from zero.
+        if (u1[0] | u1[1]) == 0 {
+            z0 = Self([0, 0, 1, 0]);
+        }
         z0.set_mul(&self);
         // Normalize around 0.
         let d = z0.norm_nonmonty_signed();
